@@ -73,7 +73,8 @@ M_KEYS = "storage:coordinate-set-differs-from-dict"
 # --------------------------------------------------------------------------- cases
 def _b(coords, values, additive):
     return {"coords": [list(map(int, c)) for c in coords],
-            "values": [int(v) for v in values], "additive": bool(additive)}
+            "values": [v if isinstance(v, str) else int(v) for v in values],
+            "additive": bool(additive)}
 
 
 def floor(tier):
@@ -118,6 +119,11 @@ def floor(tier):
     out.append({"dim": 2, "vdim": 1, "qseed": 10, "batches": [
         _b([(-1, 0), (0, -1), (0, 0), (0, 1), (1, 0)], [1, 2, 3, 4, 5], False),
         _b([(-1, 0), (0, -1), (0, 0), (0, 1), (1, 0)], [6, 7, 8, 9, 10], False)]})
+    # non-finite stored values overwritten / added to later
+    out.append({"dim": 1, "vdim": 1, "qseed": 12, "batches": [
+        _b([(0,), (1,), (2,)], ["nan", "inf", 5], False),
+        _b([(0,), (1,), (2,)], [7, 8, 9], False),
+        _b([(0,), (1,)], ["-inf", 1], True), _b([(0,)], [3], False)]})
     # four distinct coordinates, 4-cycle, second batch overwrites part of them
     out.append({"dim": 1, "vdim": 2, "qseed": 11, "batches": [
         _b([(1,), (2,), (-2,), (0,)], [1, 2, 3, 4], False),
@@ -136,6 +142,7 @@ def generate(rng, tier, i):
     batches = []
     k = 0
     style = rng.random()
+    nonfinite = bool(rng.random() < 0.1)
     for _ in range(nb):
         if rng.random() < 0.04:
             batches.append(_b([], [], rng.random() < 0.5))
@@ -155,6 +162,13 @@ def generate(rng, tier, i):
             additive = True
         else:
             additive = bool(rng.random() < 0.5)
+        vals = [int(v) for v in vals]
+        if nonfinite and rng.random() < 0.5:
+            # placeholders / overflowed sums: a later overwrite must replace them, a later
+            # additive insertion follows IEEE arithmetic, exactly as a dictionary would
+            for j in range(len(vals)):
+                if rng.random() < 0.3:
+                    vals[j] = str(rng.choice(["inf", "-inf", "nan"]))
         batches.append(_b(coords, vals, additive))
     return {"dim": dim, "vdim": vdim, "qseed": int(rng.integers(1, 2**31)),
             "batches": batches}
@@ -196,7 +210,7 @@ def _predict(stored, svals, coords, vals, additive, slip_perm, slip_stored):
 
 
 def _same(d1, d2):
-    return d1.keys() == d2.keys() and all(np.array_equal(d1[k], d2[k]) for k in d1)
+    return d1.keys() == d2.keys() and all(np.array_equal(d1[k], d2[k], equal_nan=True) for k in d1)
 
 
 def _is_involution(coords):
@@ -207,7 +221,8 @@ def _is_involution(coords):
 
 # --------------------------------------------------------------------------- check
 def _vec(v, vdim):
-    return np.array([float(v)] if vdim == 1 else [float(v), 3.0 * v + 1.0])
+    v = float(v)          # also "inf" / "-inf" / "nan" (JSON-able spelling of non-finite values)
+    return np.array([v] if vdim == 1 else [v, 3.0 * v + 1.0])
 
 
 def _get(arr, coords):
@@ -244,7 +259,7 @@ def _read_all(arr, keys, vdim, mon, rq, batch_coords=(), individually=False):
         return None
     for k, c in enumerate(order):
         v = r[:, k].copy()
-        if c in got and not np.array_equal(got[c], v):
+        if c in got and not np.array_equal(got[c], v, equal_nan=True):
             mon.violation("get:repeated-query-differs", {"coord": c})
         got[c] = v
     mon.count("keys_read_back", len(keys))
@@ -256,7 +271,7 @@ def _read_all(arr, keys, vdim, mon, rq, batch_coords=(), individually=False):
         if r1.shape != (vdim, 1):
             mon.violation(M_SHAPE, {"got": list(r1.shape), "want": [vdim, 1]})
             return None
-        if not np.array_equal(r1[:, 0], got[c]):
+        if not np.array_equal(r1[:, 0], got[c], equal_nan=True):
             mon.violation("get:single-read-differs-from-batched-read", {"coord": c})
     return got
 
@@ -331,7 +346,7 @@ def check(case, mon):
         got = _read_all(arr, list(ref), vdim, mon, rq, coords, individually=last)
         if got is None:
             return
-        bad = [c for c in ref if not np.array_equal(got[c], ref[c])]
+        bad = [c for c in ref if not np.array_equal(got[c], ref[c], equal_nan=True)]
         mon.measure("abs_readback_error",
                     max([float(np.max(np.abs(got[c] - ref[c]))) for c in ref], default=0.0))
         if bad:
